@@ -228,7 +228,12 @@ def _arith(a, b, op, rop=False):
         return _mk(ta * tb, k)
     if op in ("floordiv", "mod"):
         if k == "r":
-            raise Unsupported("floor division on reals")
+            # real a, concrete POSITIVE divisor b: floor semantics, a // b = floor(a / b), a % b = a - b * floor(a / b)
+            tb = z3.simplify(tb)
+            if not (z3.is_rational_value(tb) or z3.is_int_value(tb)) or not z3.is_true(z3.simplify(tb > 0)):
+                raise Unsupported("floor division on reals by a symbolic or non-positive divisor")
+            fl = z3.ToReal(z3.ToInt(ta / tb))
+            return _mk(fl if op == "floordiv" else ta - tb * fl, "r")
         # Python floor semantics.  z3 div/mod: a = b*div + mod with 0 <= mod < |b|
         if z3.is_int_value(tb):
             bv = tb.as_long()
